@@ -36,6 +36,11 @@ fn main() {
     let env_seed = std::env::var("VERIF_SEED").ok().and_then(|s| s.parse::<u64>().ok()).unwrap_or(1);
     let env_tier = std::env::var("VERIF_TIER").ok().map(|s| Tier::parse(&s)).unwrap_or(Tier::Quick);
     let env_workers = std::env::var("VERIF_WORKERS").ok().and_then(|s| s.parse::<u64>().ok()).unwrap_or(16);
+    // every process that executes cases itself runs under an address-space limit; the parents of a batch
+    // (check, selftest) only spawn such processes
+    if !matches!(args[1].as_str(), "check" | "selftest" | "builds" | "list") {
+        engine::limit_memory();
+    }
     match args[1].as_str() {
         "list" => {
             for d in props::all() {
@@ -72,6 +77,8 @@ fn main() {
             case.program.reanalyze();
             let r = engine::exec_on_thread(def, &case);
             std::fs::write(&args[4], serde_json::to_vec(&r).unwrap()).unwrap();
+            // a runaway case thread (watchdog expired) must not keep this process alive
+            std::process::exit(0);
         }
         "play" => {
             // play <file.ink|file.json> [choice indices...]
